@@ -88,6 +88,21 @@ def ops18 : List (String × Op) := [
     .ok (Json.mkObj [("base", setupJ18 base), ("second", setupJ18 second), ("expected", expected),
                      ("second_dimorder", optNatsJ18 P'.dimorder), ("second_optdims", optNatsJ18 P'.optdims),
                      ("second_shape", natsJ (gather shape p))])),
+  -- HOSVD / Tucker-ALS under relabelling: the permuted array, one mode product and the Gram matrix of an unfolding
+  ("c18_relabel_ttm", fun j => do
+    let X ← field j "X" >>= asDense
+    let p ← field j "p" >>= asNats
+    let U ← field j "U" >>= asRatMat
+    let k ← field j "k" >>= asNat
+    let tr ← field j "transpose" >>= asBool
+    let dJ : Except Reject (Dense Rat) → Json := exceptJ denseJ
+    let Xp := Tk.permuteD p X
+    let pk := p.getD k 0
+    .ok (Json.mkObj [("permuted", denseJ Xp),
+                     ("ttm_perm", dJ (Tk.ttm Xp U k tr)),
+                     ("ttm_expected", dJ ((Tk.ttm X U pk tr).map (Tk.permuteD p))),
+                     ("gram_perm", ratMatJ (Tk.gramMode Xp k)),
+                     ("gram", ratMatJ (Tk.gramMode X pk))])),
   -- Tucker-ALS: the projection on all factors but one and the Gram matrix of its unfolding, for X and c X
   ("c18_scale_ttm", fun j => do
     let X ← field j "X" >>= asDense
